@@ -1,5 +1,5 @@
 (* Extraction of the C code printer model (module name semodel: ocaml/expr_io.ml opens it). *)
-From SE Require Import Expr.IO C15.CModel.
+From SE Require Import Expr.IO C15.CSpec.
 Require Import ExtrOcamlBasic.
 Extraction "semodel.ml" N_of_digits Z_of_digits digits_of_N tc_lookup
-  ccode_tree ccode_model spell ccode_reads_back wp no_int_div.
+  ccode_tree ccode_model spell ccode_reads_back wp no_int_div cguard nguard.
